@@ -122,7 +122,12 @@ RULE = ("one stratum per native strategy (CMA-ES, sep-CMA-ES, LM-MA-ES, OpenAI-E
         "origin, with resets), CMA-ES / sep-CMA-ES in dimension 1..3 with batches and parent counts up to 124 under the "
         "true ranks of a quadratic centred at the start point (the region where cmu reaches its clamp 1 - c1; learning "
         "rates compared with the model, stored covariance checked for symmetry / PSD), pycma wrapper histories and "
-        "pycma convergence runs with ranking values of every documented layout. A strategy case is non-trivial when some iteration selects >= 2 parents under a non-identity "
+        "pycma convergence runs with ranking values of every documented layout; gradients of the gradient optimizers "
+        "arrive as float arrays, lists of floats, lists of ints, int32 / int64 arrays mixed in one history; LM-MA-ES at "
+        "dimension 40..56 with 33..44 direction vectors for 36..48 generations without reset (learning rates against the "
+        "model, iterations on the implementation-side oracles); float32 LM-MA-ES / OpenAI-ES in boxes that reject rows "
+        "(the per-row record of the draws); one deterministic LM-MA-ES run with batch_size == solution_dim (open "
+        "finding D50). A strategy case is non-trivial when some iteration selects >= 2 parents under a non-identity "
         "permutation; a gradient case when >= 2 non-zero gradients are stepped; counted once per distinct op list")
 PARTIAL = [
     "sampling distribution: only the deterministic identity 'row i = mean + sigma*T*z_i for the recorded/replayed "
@@ -149,6 +154,12 @@ ASSUMPTIONS = [
     "hsig test or bound test falls inside the tie zone around the discontinuity are skipped and counted",
     "between iterations the model is re-synchronised on the implementation's public state (moments of Adam, which "
     "are private, are threaded through the model instead, rounded to float64 each step)",
+    "LM-MA-ES convergence is claimed only inside the method's design range: batch_size == solution_dim is the open "
+    "finding D50 (csigma = 2: ps stays exactly 0, sigma shrinks by exp(-1) per tell whatever the ranking); measured on "
+    "the sphere from 100*ones(n), sigma0 = 1, true ranks, n in {10, 20, 30, 40}: convergence to 1e-6 of the start "
+    "distance for every batch_size <= 0.6*solution_dim (csigma <= 1.2..1.3), premature collapse of sigma below 1e-12 "
+    "with the mean still at 55-99 % of the start distance for batch_size >= 0.7*solution_dim (csigma >= 1.4); the "
+    "labelled convergence test uses dim 30, batch 8",
     "gradient optimizers are driven with float start points (emitters always pass float arrays); AdamOpt with an "
     "integer theta0 raises UFuncTypeError at step() (in-place float update of an integer array) - recorded, not "
     "claimed as a violation",
@@ -628,7 +639,15 @@ def check_reset_model(case, es, x0, where):
         obs = [("mean", es.mean, pv(r["mean"])), ("sigma", [es.sigma], pv(r["sigma"])),
                ("ps", es.ps, pv(r["ps"])), ("m", es.m, prows(r["m"], dim)),
                ("gens", [es.current_gens], [int(r["gens"])])]
-        # learning rates are public attributes; they are continuous functions of the configuration
+        # learning rates are public attributes; every one of them must be a usable rate (finite, in (0, 1]) ...
+        for name, arr in (("cd", es.cd), ("cc", es.cc)):
+            a = np.asarray(arr, dtype=np.float64)
+            if a.shape != (es.n_vectors,) or not np.all(np.isfinite(a)) or np.any(a <= 0) or np.any(a > 1):
+                bad = [int(i) for i in np.nonzero(~(np.isfinite(a) & (a > 0) & (a <= 1)))[0]][:6]
+                return fail("oracle", where, f"LM-MA-ES learning rates {name}[i] must lie in (0, 1]: entries {bad} are "
+                            f"{a[bad].tolist()} (n_vectors = {es.n_vectors}, batch_size = {case['batch']}, "
+                            f"solution_dim = {dim})")
+        # ... and they are continuous functions of the configuration
         for name, impl, mod in [("csigma", [es.csigma], pv(r["csigma"])), ("cd", es.cd, pv(r["cd"])),
                                 ("cc", es.cc, pv(r["cc"]))]:
             msg = close(f"lm.{name}", impl, mod, 1.0, TOL[F64])
@@ -2030,6 +2049,9 @@ def run_thorough(ctx):
     table = {s[0]: s for s in todo}
     seen = {}
     for name, idx, fj in sorted(failing, key=lambda t: (t[0], t[1])):
+        if fj.get("key") is not None and fj["key"] in ctx.open_keys:
+            ctx.known_hits[fj["key"]] = ctx.known_hits.get(fj["key"], 0) + 1  # open known finding: reported as such
+            continue
         if seen.get(name, 0) >= 2:
             continue
         seen[name] = seen.get(name, 0) + 1
@@ -2040,10 +2062,10 @@ def run_thorough(ctx):
         f = run_case(case)
         if f is None:
             f = Failure(fj["kind"], fj["what"] + " (did not reproduce in the main process)", key=fj.get("key"))
-            ctx.failures.append((f, case))
+            ctx.fail(f, case)
             continue
         small = core.shrink(case, run_case, f, "ops")
-        ctx.failures.append((run_case(small) or f, small))
+        ctx.fail(run_case(small) or f, small)
     # samples: the first generated case of three strata (they were run by the workers above)
     for name, gen, _, _, _, _ in (todo[0], todo[3], todo[5]):
         if not any(fn == name and fi == 0 for fn, fi, _ in failing):
